@@ -415,7 +415,11 @@ def check_clean(repo, unreferenced=False, ignore_ghost_introduced=False):
     derive their parents from and expects none, whatever parents the text really has."""
     try:
         res = repo.check()
-    except Exception as e:  # noqa: BLE001
+    except (KeyboardInterrupt, SystemExit, MemoryError):
+        raise
+    except BaseException as e:  # noqa: B036 - pyo3 panics are BaseExceptions
+        if type(e).__name__ in ("SimCrash", "Violation", "HarnessTruncated"):
+            raise
         return f"check() raised {type(e).__name__}: {e}"
     probs = []
     if res.missing_inventory_sha_cnt:
@@ -634,8 +638,10 @@ class DagGen:
     """Seeded generator of DAG histories over 1-4 branches.  Pure: uses only rng and the
     model.  Each generated spec carries "tags" naming the situations it creates."""
 
-    def __init__(self, rng, mh=None, ts0=1_500_000_000, kinds=("file", "file", "file", "directory", "symlink"), exec_bits=True, ghosts=0.0, nick=None, prefix="", octopus=0.0, side_merges=0.0):
+    def __init__(self, rng, mh=None, ts0=1_500_000_000, kinds=("file", "file", "file", "directory", "symlink"), exec_bits=True, ghosts=0.0, nick=None, prefix="", octopus=0.0, side_merges=0.0, twins=0.0, dup_content=0.0):
         self.rng = rng
+        self.twins = twins  # probability per step of a merge in which two files end up with identical content
+        self.dup_content = dup_content  # probability that a modified file copies another file's content
         self.octopus = octopus  # probability per step of an octopus merge (3-4 parents)
         self.side_merges = side_merges  # probability per step of merging a short-lived side branch
         self.ntmp = 0
@@ -719,7 +725,11 @@ class DagGen:
             elif r < 0.50 and files:
                 f = rng.choice(files)
                 old = self._old_contents(f)
-                if old and rng.random() < 0.25:
+                others = sorted({trial[g][3] for g in files if g != f and trial[g][3] != trial[f][3]}) if self.dup_content else []
+                if others and rng.random() < self.dup_content:
+                    c = rng.choice(others)
+                    tag = "copy_content"
+                elif old and rng.random() < 0.25:
                     c = rng.choice(old)
                     tag = "revert_content"
                 else:
@@ -892,6 +902,37 @@ class DagGen:
                 tags.add("merge_take_other")
         return self._emit(b, [tip, g], tree, tags)
 
+    def op_twin_shape(self, b):
+        """Three commits: the OTHER branch writes the same text C into files fa and fb;
+        THIS branch writes C into fb too (identical parallel change) or something else
+        (conflict); the merge takes the other side's fa unchanged (carry-over from the
+        non-first parent) and ends with fb = C as well: a carried-over file and a file
+        that needs a new version have byte-identical content in one merge commit."""
+        rng = self.rng
+        mh = self.mh
+        live = sorted(mh.tips)
+        others = [o for o in live if o != b and mh.tips[o] not in mh.ancestry(mh.tips[b]) and mh.tips[b] not in mh.ancestry(mh.tips[o])]
+        if not others:
+            return None
+        o = rng.choice(others)
+        t1 = {f: list(e) for f, e in mh.tree(mh.tips[b]).items()}
+        t2 = {f: list(e) for f, e in mh.tree(mh.tips[o]).items()}
+        same = sorted(f for f, e in t1.items() if e[2] == "file" and f in t2 and list(t2[f]) == e)
+        if len(same) < 2:
+            return None
+        fa, fb = rng.sample(same, 2)
+        c = self._content("twin" + str(len(mh.revs)))
+        t2[fa][3] = c
+        t2[fb][3] = c
+        conflict = rng.random() < 0.4
+        t1[fb][3] = self._content("conflict" + str(len(mh.revs))) if conflict else c
+        self._emit(o, [mh.tips[o]], t2, {"edit", "twin_content_other"})
+        self._emit(b, [mh.tips[b]], t1, {"edit", "twin_content_this"})
+        tree = {f: list(e) for f, e in t1.items()}
+        tree[fa] = list(t2[fa])
+        tree[fb][3] = c
+        return self._emit(b, [mh.tips[b], mh.tips[o]], tree, {"merge", "twin_content", "twin_conflict" if conflict else "twin_parallel"})
+
     def op_same_change(self, b1, b2):
         """The identical change committed independently on two branches."""
         mh = self.mh
@@ -1041,6 +1082,8 @@ class DagGen:
             if self.octopus and rng.random() < self.octopus and self.op_octopus_auto(b) is not None:
                 continue
             if self.side_merges and rng.random() < self.side_merges and self.op_side_merge(b) is not None:
+                continue
+            if self.twins and rng.random() < self.twins and self.op_twin_shape(b) is not None:
                 continue
             r = rng.random()
             if r < merge_p and others:
@@ -1219,7 +1262,30 @@ class DagBuilder:
         self.wts[name] = wt
         return wt
 
+    raise_errors = False  # True: commit() lets exceptions of the code under test through
+
     def commit(self, spec):
+        """Commit `spec`.  An exception escaping from the code under test (including pyo3
+        PanicException, a BaseException) is a property violation, not a harness error:
+        unless `raise_errors` is set it is reported through the run's Sim as op_failed."""
+        from simkit.sim import HarnessTruncated, SimCrash, Violation, cur_sim
+
+        try:
+            return self._commit(spec)
+        except (SimCrash, Violation, HarnessTruncated, KeyboardInterrupt, SystemExit, MemoryError):
+            raise
+        except BaseException as e:  # noqa: B036
+            if self.raise_errors:
+                if isinstance(e, Exception):
+                    raise
+                raise OpFailed("commit", e) from e
+            try:
+                sim = cur_sim()
+            except RuntimeError:
+                raise e from None
+            report_op_failure(sim, "commit", self.fmt, e, f"commit of {spec['id']} (parents {spec['parents']}, tags {spec.get('tags')})")
+
+    def _commit(self, spec):
         name = spec["branch"]
         parents = spec["parents"]
         p0 = parents[0] if parents else None
@@ -1276,6 +1342,25 @@ def _commit_direct(self, wt, spec, props):
 DagBuilder._commit_direct = _commit_direct
 
 
+class OpFailed(Exception):
+    """An operation of the code under test died with a BaseException that is not an
+    Exception (e.g. pyo3 PanicException); wrapped so that ordinary handlers see it."""
+
+    def __init__(self, op, cause):
+        Exception.__init__(self, f"{op} died with {type(cause).__name__}: {cause}")
+        self.op = op
+        self.cause = cause
+
+
+def report_op_failure(sim, op, conf, exc, what):
+    """sim.fail for an exception that escaped an operation of the code under test."""
+    import traceback
+
+    cause = exc.cause if isinstance(exc, OpFailed) else exc
+    frames = [f.name for f in traceback.extract_tb(cause.__traceback__) if "/breezy/" in f.filename or "/bzrformats/" in f.filename]
+    sim.fail("op_failed", ["op_failed", conf, op, f"{type(cause).__name__}:{frames[-1] if frames else '?'}"], f"{what} failed: {type(cause).__name__}: {cause}\n" + "".join(traceback.format_exception(cause))[-1800:])
+
+
 def real_tree(repo, rid):
     """{fid: [parent_fid, name, kind, content, exec, last_changed]} of a stored revision."""
     tree = repo.revision_tree(rid.encode() if isinstance(rid, str) else rid)
@@ -1305,7 +1390,11 @@ def dag_problems(repo, mh, revids, per_file=True, root_too=None):
         try:
             rev = repo.get_revision(rid.encode())
             got = real_tree(repo, rid)
-        except Exception as e:  # noqa: BLE001
+        except (KeyboardInterrupt, SystemExit, MemoryError):
+            raise
+        except BaseException as e:  # noqa: B036 - pyo3 panics are BaseExceptions
+            if type(e).__name__ in ("SimCrash", "Violation", "HarnessTruncated"):
+                raise
             yield ("unreadable", rid, None, f"{type(e).__name__}: {e}")
             continue
         if [p.decode() for p in rev.parent_ids] != spec["parents"]:
